@@ -66,7 +66,6 @@ package bytetree
 //@   modifies nothing
 //@   loop 0 modifies nothing
 //@ func (*Tree).Remove
-//@   requires bt != nil
 //@   modifies *
 //@   at call node).doRemoveFor assert removes_only_an_exact_match: i == keyLength && keyLength == labelLength && keyLength == len(key) && labelLength == len(edge.label) && (forall j in 0..keyLength :: edge.label[j] == key[j])
 //@   loop 2 modifies nothing
@@ -78,7 +77,6 @@ package bytetree
 // every edge it passed over shares nothing with the key: a non-empty label whose first byte differs from the key's
 // (an edge with an empty label is the prefix of every non-empty key and must be descended into, the way Remove does).
 //@ func (*Tree).doUpdate
-//@   requires bt != nil
 //@   modifies *
 //@   at call node).doUpdate inscope assert updates_only_an_exact_match: i == keyLength && keyLength == labelLength && keyLength == len(key) && labelLength == len(edge.label) && (forall j in 0..keyLength :: edge.label[j] == key[j])
 //@   at call edge).split assert splits_at_the_first_difference: callarg2 == i && 0 < i && i <= len(key) && i <= len(edge.label) && callarg3 == fullKey && callarg4 == key && (forall j in 0..i :: edge.label[j] == key[j])
